@@ -23,6 +23,26 @@ structure MiniFit (p : P) : Prop where
   small : ∀ (i : Nat) (hi : i < p.miniFat.size), p.miniFat[i] < 256 ^ 4
   root : p.miniFat.size ≤ p.rootLen / Gen.MINI_SECTOR_LEN
 
+/-- `MiniFit` as a computation: the phys driver evaluates it on every state of every replayed
+history (a `false` is printed as a model failure), so the hypothesis is at least lock-stepped -/
+def miniFitB (p : P) : Bool :=
+  (match p.miniFat.back? with | some v => v != FREE | none => true) &&
+  decide (p.miniFat.size ≤ (chainOrEmpty p p.miniFatStart).length * p.S / 4) &&
+  p.miniFat.all (fun v => decide (v < 256 ^ 4)) &&
+  decide (p.miniFat.size ≤ p.rootLen / Gen.MINI_SECTOR_LEN)
+
+theorem miniFitB_sound {p : P} (h : miniFitB p = true) : MiniFit p := by
+  unfold miniFitB at h
+  simp only [Bool.and_eq_true, decide_eq_true_eq] at h
+  obtain ⟨⟨⟨h1, h2⟩, h3⟩, h4⟩ := h
+  refine ⟨?_, h2, ?_, h4⟩
+  · intro v hv
+    rw [hv] at h1
+    simpa using h1
+  · intro i hi
+    have := (Array.all_eq_true.mp h3) i hi
+    simpa using this
+
 /-- what `open` is to return -/
 def rawOf (p : P) (rows : List Row) : RawState :=
   { v4 := p.v4, numSectors := p.numSectors, difatSectorIds := p.difatSectorIds, difat := p.difat, fat := p.fat,
